@@ -83,7 +83,12 @@ fn wrap(e: E, w: u8) -> E {
         2 => E::Macro(Mac::Exists, b(E::List(vec![E::Lit(V::Int(1)), E::Lit(V::Int(2))])), "x".into(), vec![e]),
         3 => E::Macro(Mac::Filter, b(E::List(vec![E::Lit(V::Int(1)), E::Lit(V::Int(2))])), "x".into(), vec![e]),
         4 => E::Macro(Mac::Map, b(E::List(vec![E::Lit(V::Int(1)), E::Lit(V::Int(2))])), "x".into(), vec![e]),
-        _ => E::Macro(Mac::ExistsOne, b(E::List(vec![E::Lit(V::Int(1)), E::Lit(V::Int(2))])), "x".into(), vec![e]),
+        5 => E::Macro(Mac::ExistsOne, b(E::List(vec![E::Lit(V::Int(1)), E::Lit(V::Int(2))])), "x".into(), vec![e]),
+        // the three-argument map: the tree as the guard of a logging / raising transform, and as the transform under a
+        // guard that is false for the first element (the macro's own "guard ? append : keep" skips the transform)
+        6 => E::Macro(Mac::Map, b(E::List(vec![E::Lit(V::Int(1)), E::Lit(V::Int(2))])), "x".into(), vec![e, E::call("t", vec![E::Lit(V::Int(100)), E::var("x")])]),
+        7 => E::Macro(Mac::Map, b(E::List(vec![E::Lit(V::Int(1)), E::Lit(V::Int(2))])), "x".into(), vec![e, E::bin(Op::Div, E::var("x"), E::Lit(V::Int(0)))]),
+        _ => E::Macro(Mac::Map, b(E::List(vec![E::Lit(V::Int(1)), E::Lit(V::Int(2))])), "x".into(), vec![E::bin(Op::Gt, E::var("x"), E::Lit(V::Int(1))), e]),
     }
 }
 
@@ -141,12 +146,12 @@ fn gen_tree(u: &mut Chooser, depth: usize) -> E {
 pub fn run(r: &mut Runner) {
     r.rule = "cases: trees over &&, ||, ?: (and !) whose leaves are true/false, error raisers (1/0, overflow, missing key, undeclared name, failing host function) \
               and logging host calls t(id, bool) with ids in source order; exhaustive to depth 1 over the 9-leaf alphabet and to depth 2 over a 6-leaf alphabet, random \
-              to depth 4, bare and as bodies of all/exists/exists_one/filter/map. Oracle: the reference evaluator's outcome class and exact ordered host-call log. \
+              to depth 4, bare and as bodies of all/exists/exists_one/filter/map, as guard and as guarded transform of the three-argument map. Oracle: the reference evaluator's outcome class and exact ordered host-call log. \
               Non-trivial: an operand containing a host call or a raiser was skipped observably; distinct by (tree, embedding)."
         .into();
     r.assumptions = vec!["host functions observe evaluation only through their own invocation; literal arguments of t() are evaluated without side effects".into()];
     let n1 = depth1_count(FULL) as u64;
-    r.sweep_fn("depth1-full-alphabet", n1 * 6, move |i| mk(depth1(FULL, (i / 6) as usize), (i % 6) as u8), check);
+    r.sweep_fn("depth1-full-alphabet", n1 * 9, move |i| mk(depth1(FULL, (i / 9) as usize), (i % 9) as u8), check);
     // depth 2, binary root, children = all depth<=1 trees over the reduced alphabet
     let d1 = depth1_count(REDUCED) as u64;
     r.sweep_fn(
@@ -168,7 +173,8 @@ pub fn run(r: &mut Runner) {
     );
     {
         // conditionals directly inside conditionals (else-if chains and their mirror images), exhaustive over the reduced alphabet
-        let leaves = REDUCED as u64;
+        // quick: the 4-leaf alphabet true / false / 1/0 / t(id, true) (68^3 = 314 432 trees); thorough: the 6-leaf one (222^3 = 10.9 M)
+        let leaves = r.tier.n(4, REDUCED as u64);
         let conds = leaves * leaves * leaves; // depth-1 conditionals
         let opts = leaves + conds; // a branch: a leaf or a conditional
         r.sweep_fn(
@@ -195,7 +201,7 @@ pub fn run(r: &mut Runner) {
         n,
         |u| {
             let d = 3 + u.below(2);
-            let w = if u.chance(1, 3) { 1 + u.below(5) as u8 } else { 0 };
+            let w = if u.chance(1, 3) { 1 + u.below(8) as u8 } else { 0 };
             mk(gen_tree(u, d), w)
         },
         check,
